@@ -141,7 +141,7 @@ Proof.
   pose proof with_sql_wt. pose proof table_sql_upd_wt. pose proof joins_sql_wt. pose proof set_sql_wt. pose proof from_sql_wt. pose proof where_sql_wt.
   pose proof orderby_sql_wt. pose proof limit_kw_sql_wt.
   unfold pg_sqlite_update. cbv zeta.
-  destruct (q_update_table q) as [|[]]; try (destruct Hupd_parts as [? ?]); wtg.
+  destruct (q_update_table q) as [|[]]; try (destruct Hupd_parts); wtg.
 Qed.
 Lemma tail_with_wt c sq wa qs : WT (tail_with R q c sq wa qs).
 Proof.
